@@ -18,6 +18,22 @@ def run(ctx):
                                {"op": "create", "at": "A", "h": ["md5"], "now": "2026-03-01 12:00:03"}, {"op": "create", "at": "", "h": ["md5"], "now": "2026-03-01 12:00:04", "i": [pat]},
                                {"op": "create", "at": "", "h": ["md5"], "now": "2026-03-01 12:00:05"}, {"op": "create", "at": "A", "h": ["sha1"], "now": "2026-03-01 12:00:06"},
                                {"op": "verify", "at": ""}, {"op": "info", "at": ""}]})
+    # rename detection below nested histories: the root folder of a history two levels down is renamed; every history
+    # names the old path relative to its own root
+    for deep in (False, True):
+        tree = {"Card/Clips/x.mov": "x", "Card/Clips/sub/z.mov": "z", "Card/y.mov": "y", "top.txt": "t"}
+        ops = [{"op": "create", "at": "Card/Clips", "h": ["md5"], "now": "2026-03-01 12:00:01"}, {"op": "create", "at": "Card", "h": ["md5"], "now": "2026-03-01 12:00:02"},
+               {"op": "create", "at": "", "h": ["md5"], "now": "2026-03-01 12:00:03"},
+               {"op": "mv", "src": "Card/Clips/sub" if deep else "Card/Clips", "dst": "Card/Clips/takes" if deep else "Card/Takes"},
+               {"op": "create", "at": "", "h": ["md5"], "now": "2026-03-01 12:00:04", "dr": True}, {"op": "verify", "at": ""}]
+        scs.insert(0, {"profile": "c08-renamed-below", "impl_only": True, "root": "root", "tree": tree, "ops": ops})
+    # -sf naming files of sibling histories that have the same path relative to their own history root
+    for sf in (["Cards/A001/index.xml", "Cards/A002/index.xml"], ["Cards/A001/index.xml", "Cards/A002/index.xml", "index.xml", "Cards/A001/index.xml"], ["Cards"]):
+        tree = {"Cards/A001/index.xml": "one", "Cards/A002/index.xml": "two", "Cards/A002/clip.mov": "c", "index.xml": "top", "Cards/index.xml": "mid"}
+        ops = [{"op": "create", "at": "Cards/A001", "h": ["md5"], "now": "2026-03-01 12:00:01"}, {"op": "create", "at": "Cards/A002", "h": ["md5"], "now": "2026-03-01 12:00:02"},
+               {"op": "create", "at": "", "h": ["md5"], "now": "2026-03-01 12:00:03"}, {"op": "create", "at": "", "h": ["md5", "sha1"], "now": "2026-03-01 12:00:04", "sf": sf},
+               {"op": "verify", "at": ""}]
+        scs.insert(0, {"profile": "c08-sf-namesakes", "root": "root", "tree": tree, "ops": ops})
     return _scn.run_scn(ctx, scs, mon, witness_ids=("D5b", "D4a"))
 
 
